@@ -4,7 +4,7 @@
    conversion and of interpreters/pdl_interp.py); Spec: position semantics eval_pos / seq_eval in
    C27/ProofsChain.v, side conditions in C27/ProofsMatch.v and C27/Proofs.v. *)
 From Coq Require Import ZArith List Bool.
-From XV Require Import Base.Show C27.Model C27.Enc C27.ProofsChain C27.ProofsOrder C27.ProofsMatch C27.ProofsGuard C27.ProofsTotal C27.Proofs.
+From XV Require Import Base.Show C27.Model C27.Enc C27.ProofsChain C27.ProofsOrder C27.ProofsMatch C27.ProofsGuard C27.ProofsTotal C27.Proofs C27.ProofsEnv C27.ProofsRewrite C27.ProofsRewriteTop.
 Import ListNotations.
 Local Open Scope Z_scope.
 
@@ -81,6 +81,55 @@ Print Assumptions C27_matcher_never_raises.
 Theorem C27_compile_total : forall fx P, rewrite_refs_ok fx P = true -> exists c, compile fx P = Some c.
 Proof. exact compile_total. Qed.
 Print Assumptions C27_compile_total.
+
+(* C27_rewrite_equiv, partial form, for every configuration in which pdl_interp.erase is implemented and type
+   ranges / result-type inference are handled (repairs C27-4, C27-5; the other repair flags arbitrary, with the
+   side conditions of the match theorem).  Exact hypotheses:
+     - the executable static check rewrite_static_ok: the conversion recorded all pattern values at pairwise
+       different positions (none of them a rewrite-local value), the rewriter function has as many arguments as
+       record_match hands over positions, and pdl.replace-with-operation occurs only when the root declares result
+       types (evaluated by the harness on every generated and corpus pattern);
+     - the direct application does not raise.
+   Then: if the direct application rewrites the payload into plF, the converted matcher + rewriter produce exactly
+   plF (new operations get the same ids in both models, so "up to fresh ids" is plain equality); and if the direct
+   pattern does not match, neither does the converted one (and it does not raise).
+   Not covered: the case in which the direct rewrite raises (ill-typed rewrites, where the converted path may go on:
+   pdl.result index beyond the declared results, replacement with results for a root without results), and
+   replace-with-operation for a root that declares no result types. *)
+Theorem C27_rewrite_equiv_partial : forall fx P pl x c plF,
+  fx_erase fx = true -> fx_range fx = true -> fx_infer fx = true ->
+  match_side_conditions fx P pl -> rewrite_static_ok fx P = true ->
+  find_op pl (o_id x) = Some x -> compile fx P = Some c ->
+  pdl_apply fx P pl (o_id x) = ROk plF -> interp_apply fx c pl (o_id x) = ROk plF.
+Proof. exact rewrite_equiv_partial. Qed.
+Print Assumptions C27_rewrite_equiv_partial.
+
+Theorem C27_no_match_equiv : forall fx P pl x c,
+  match_side_conditions fx P pl -> compile_guarded fx P = true ->
+  find_op pl (o_id x) = Some x -> compile fx P = Some c ->
+  pdl_apply fx P pl (o_id x) = RNoMatch -> interp_apply fx c pl (o_id x) = RNoMatch.
+Proof. exact apply_nomatch. Qed.
+Print Assumptions C27_no_match_equiv.
+
+(* the core of it: statement-by-statement simulation of the generated rewriter function against the direct rewrite,
+   for ANY rewriter arguments that are the direct bindings of the values they translate *)
+Theorem C27_rewriter_simulates_direct_rewrite :
+  forall fx P inp rootpat pid e0 regs0 usedF,
+  fx_erase fx = true -> fx_range fx = true -> fx_infer fx = true ->
+  (forall l, klookup inp (KLocal l) = None) ->
+  (forall k1 k2 p, klookup inp k1 = Some p -> klookup inp k2 = Some p -> k1 = k2) ->
+  (forall k p j, klookup inp k = Some p -> znth usedF j = Some p ->
+                 exists v, klookup e0 k = Some v /\ rrlookup regs0 (RA j) = Some v) ->
+  (forall a c v, p_aconst P a = Some c -> klookup e0 (KAttr a) = Some v -> v = OAttr c) ->
+  (forall t c v, p_tconst P t = Some c -> klookup e0 (KType t) = Some v -> v = OType c) ->
+  klookup e0 (KOp (op_id rootpat)) = Some (OOp pid) ->
+  forall l st stF code e regs pl plF,
+  Inv inp e0 regs0 e st regs -> gen_stmts fx P inp rootpat st l = Some (stF, code) -> pre (rg_used stF) usedF ->
+  (op_rtys rootpat <> [] \/ Forall (fun s => match s with SReplaceOp _ => False | _ => True end) l) ->
+  run_rw fx pid l e pl = ROk plF ->
+  run_rewriter fx pid (code ++ [RFinalize]) regs pl = ROk plF.
+Proof. exact stmts_sim. Qed.
+Print Assumptions C27_rewriter_simulates_direct_rewrite.
 
 (* as found: the constant attribute 0 : i32 is dropped by the conversion; the converted matcher rewrites an operation the direct one rejects.  With the repairs both agree *)
 Theorem C27_match_equiv_refuted_falsy_constant :
@@ -171,3 +220,6 @@ Print Assumptions C27_example_guarded.
 Example C27_example_refs_ok : rewrite_refs_ok as_found ex_pattern = true.
 Proof. vm_compute. reflexivity. Qed.
 Print Assumptions C27_example_refs_ok.
+Example C27_example_rewrite_static_ok : rewrite_static_ok repaired ex_pattern = true /\ rewrite_static_ok as_found ex_pattern = true.
+Proof. split; vm_compute; reflexivity. Qed.
+Print Assumptions C27_example_rewrite_static_ok.
